@@ -515,6 +515,7 @@ func check(prop, tierArg string) int {
 			if tier == "thorough" {
 				gens *= 3
 			}
+			gens = envIntD("VERIF_GENERATIONS", gens)
 		}
 		env[3] = "VERIF_NWORKERS=" + strconv.Itoa(nworkers*gens)
 		env[4] = "VERIF_WALL_S=" + strconv.Itoa(max(wallS/gens, 1))
